@@ -157,23 +157,27 @@ func C01(c *core.Ctx) {
 	for _, ci := range core.FindCallsDeep(pod, idSendPacket) {
 		recv, args := core.CallArgs(ci.Common())
 		okFace := false
-		if cl, isC := core.Strip(recv).(*ssa.Call); isC {
+		restorePod := core.WithRoot(pod)
+		if cl, isC := core.Resolve(recv).(*ssa.Call); isC {
 			if _, isG := core.IsCall(cl, idGetFace); isG {
-				okFace = cl.Call.Args[0] == ssa.Value(pod.Params[2])
+				okFace = core.Same(cl.Call.Args[0], pod.Params[2])
 			}
 		}
+		restorePod()
 		c.Decide(okFace, "R1.2", "outdata-face-is-nexthop", c.Pos(ci), "Data is sent on GetFace(nexthop)", "processOutgoingData sends on a face other than GetFace(nexthop): "+describeFaceValue(recv))
 		tok := outPktField(args[0], "PitToken")
-		c.Decide(tok == ssa.Value(pod.Params[3]), "R1.3", "outdata-token-passthrough", c.Pos(ci), "OutPkt.PitToken is the pitToken parameter", "processOutgoingData does not attach the pitToken it was given")
+		c.Decide(core.Same(tok, pod.Params[3]), "R1.3", "outdata-token-passthrough", c.Pos(ci), "OutPkt.PitToken is the pitToken parameter", "processOutgoingData does not attach the pitToken it was given")
 		pk := outPktField(args[0], "Pkt")
-		c.Decide(pk == ssa.Value(pod.Params[1]), "R1.2", "outdata-packet-passthrough", c.Pos(ci), "OutPkt.Pkt is the packet parameter", "processOutgoingData sends a packet other than the one it was given")
+		c.Decide(core.Same(pk, pod.Params[1]), "R1.2", "outdata-packet-passthrough", c.Pos(ci), "OutPkt.Pkt is the packet parameter", "processOutgoingData sends a packet other than the one it was given")
 	}
 
 	// ---- SendData: passthrough, token from the in-record of the same face, delete
+	slSd := &core.Slicer{P: p, Root: sd}
+	restoreSd := core.WithRoot(sd)
 	for _, ci := range core.FindCallsDeep(sd, idProcOutData) {
 		_, args := core.CallArgs(ci.Common())
-		c.Decide(args[0] == ssa.Value(sd.Params[1]) && args[1] == ssa.Value(sd.Params[3]) && args[3] == ssa.Value(sd.Params[4]), "R1.2", "SendData-passthrough", c.Pos(ci), "packet, nexthop, inFace passed through unchanged", "SendData does not pass its packet/nexthop/inFace through unchanged")
-		leaves := sl.Leaves(args[2])
+		c.Decide(core.Same(args[0], sd.Params[1]) && core.Same(args[1], sd.Params[3]) && core.Same(args[3], sd.Params[4]), "R1.2", "SendData-passthrough", c.Pos(ci), "packet, nexthop, inFace passed through unchanged", "SendData does not pass its packet/nexthop/inFace through unchanged")
+		leaves := slSd.Leaves(args[2])
 		bad := []string{}
 		nRec := 0
 		for _, l := range leaves {
@@ -195,13 +199,13 @@ func C01(c *core.Ctx) {
 	// delete(pitEntry.InRecords(), nexthop) on the hit edge
 	{
 		var del ssa.Instruction
-		core.Instrs(sd, func(in ssa.Instruction) {
+		core.InstrsDeep(sd, func(in ssa.Instruction) {
 			cl, ok := in.(*ssa.Call)
 			if !ok {
 				return
 			}
 			if b, ok := cl.Call.Value.(*ssa.Builtin); ok && b.Name() == "delete" && len(cl.Call.Args) == 2 {
-				if isCallOn(cl.Call.Args[0], idInRecords, sd.Params[2]) && cl.Call.Args[1] == ssa.Value(sd.Params[3]) {
+				if isCallOn(cl.Call.Args[0], idInRecords, sd.Params[2]) && core.Same(cl.Call.Args[1], sd.Params[3]) {
 					del = in
 				}
 			}
@@ -218,13 +222,14 @@ func C01(c *core.Ctx) {
 		ok := del != nil
 		if ok {
 			ok = false
-			for _, f := range core.EdgeFacts(sd, hit) {
+			for _, f := range core.EdgeFactsDeep(sd, hit) {
 				if f.Holds {
 					fr := core.MustFollowDeep(sd, core.Point{Block: f.E.To, Idx: 0}, func(in ssa.Instruction) bool { return in == del }, nil)
 					ok = fr.OK
 				}
 			}
 		}
+		restoreSd()
 		c.Decide(ok, "R1.5", "SendData-consumes-in-record", p.Pos(sd.Pos()), "the in-record used is deleted on every path after the hit", "SendData does not delete the in-record it used: a repeated copy of the Data is delivered again")
 	}
 
@@ -247,7 +252,7 @@ func C01(c *core.Ctx) {
 					}
 				}
 				c.Decide(ok, "R1.2", fmt.Sprintf("data-face-source:%s#%d", tn, i), c.Pos(ci), "face id is a key of pitEntry.InRecords()", "Data is sent to a face id that is not a key of the satisfied entry's in-records: "+core.LeafSet(leaves))
-				c.Decide(args[0] == ssa.Value(fn.Params[1]) && args[1] == ssa.Value(fn.Params[2]), "R1.2", fmt.Sprintf("data-send-args:%s#%d", tn, i), c.Pos(ci), "packet and pitEntry passed through", "SendData is not given the strategy's own packet/pitEntry")
+				c.Decide(core.Same(args[0], fn.Params[1]) && core.Same(args[1], fn.Params[2]), "R1.2", fmt.Sprintf("data-send-args:%s#%d", tn, i), c.Pos(ci), "packet and pitEntry passed through", "SendData is not given the strategy's own packet/pitEntry")
 				// every in-record is served: the send is unconditional inside the range loop
 				h := loopHeader(ci.Block())
 				c.Decide(h != nil && everyIterationPasses(fn, h, func(in ssa.Instruction) bool { return in == ssa.Instruction(ci) }), "R1.2", fmt.Sprintf("data-to-every-in-record:%s#%d", tn, i), c.Pos(ci), "every in-record iteration sends", "some in-record of a satisfied entry is skipped (conditional send inside the loop)")
@@ -259,7 +264,7 @@ func C01(c *core.Ctx) {
 			ok := len(calls) == 1
 			if ok {
 				_, args := core.CallArgs(calls[0].Common())
-				ok = args[2] == ssa.Value(fn.Params[3]) && args[0] == ssa.Value(fn.Params[1]) && args[1] == ssa.Value(fn.Params[2]) && !core.InLoop(calls[0].Block())
+				ok = core.Same(args[2], fn.Params[3]) && core.Same(args[0], fn.Params[1]) && core.Same(args[1], fn.Params[2]) && !core.InLoop(calls[0].Block())
 			}
 			c.Decide(ok, "R1.6", "cs-hit-to-requester:"+tn, p.Pos(fn.Pos()), "exactly one SendData, to inFace", fmt.Sprintf("AfterContentStoreHit must make exactly one SendData call with nexthop == inFace (found %d calls or a different face)", len(calls)))
 		}
@@ -654,6 +659,12 @@ func lookupKeyIs(v ssa.Value, key ssa.Value) bool {
 		}
 		seen[v] = true
 		switch x := v.(type) {
+		case *ssa.Call:
+			for _, rv := range core.ReturnedValues(x) {
+				if rv != ssa.Value(x) {
+					walk(rv)
+				}
+			}
 		case *ssa.Phi:
 			for _, e := range x.Edges {
 				walk(e)
@@ -665,7 +676,7 @@ func lookupKeyIs(v ssa.Value, key ssa.Value) bool {
 		case *ssa.Extract:
 			if lk, ok := x.Tuple.(*ssa.Lookup); ok {
 				found = true
-				if lk.Index != key {
+				if !core.Same(lk.Index, key) {
 					okAll = false
 				}
 			}
